@@ -180,7 +180,7 @@ def _bler_cfgs(tier):
     for shp in shapes:
         per = _per_item(SHAPES[shp])
         for B in _divisors(per) + [None]:
-            for form in ("float32",) + (("int64",) if B in (None, per) else ()) + (("complex64",) if (B in (2, None) and shp in ("2x4", "1x6", "2x2x3") and not (tier == "quick" and shp == "2x4" and B == 2)) else ()):
+            for form in ("float32",) + (("int64",) if B in (None, per) else ()) + (("complex64",) if (B in (2, None) and shp in ("2x4", "1x6") and not (tier == "quick" and shp == "2x4" and B == 2)) else ()):
                 for var in ("exact", "sym"):
                     out.append(Cfg("bler", form, shp, B, var))
     return out
